@@ -10,6 +10,19 @@ From Coq Require Import ZArith QArith Qabs.
 From FCA Require Export Corr.Common Model.C19_Mover Spec.C19_LayoutSpec.
 Local Open Scope nat_scope.
 
+(* one use of a (reused) visualizer object: init_mover_per_poset(poset, layout) for both layouts,
+   positions read back from visualizer.mover.pos *)
+Record viz_step := {
+  vs_n : nat;
+  vs_rel : list (list bool);
+  vs_c : Q;
+  vs_dpth : Z;
+  vs_levels : lres (list Z);
+  vs_ldict : list (list nat);
+  vs_fcart : lres (list (Q * Q));
+  vs_multi : lres (list (Q * Q))
+}.
+
 Record c19_case := {
   k_kind : nat;
   (* layout *)
@@ -27,7 +40,9 @@ Record c19_case := {
   k_ops : list mop;
   k_trace : list (nat * list pt);      (* first entry: after loading *)
   (* the documented attributes levels, peers_order, pos_levels, pos_peers at the same moments *)
-  k_ints : list (list nat * list nat * list Q * list (list Q))
+  k_ints : list (list nat * list nat * list Q * list (list Q));
+  (* kind 2: a sequence of posets shown by ONE visualizer object *)
+  k_steps : list viz_step
 }.
 
 Definition tol : Q := 1 # 1000000000.
@@ -165,9 +180,15 @@ Definition mover_spec_ok (cs : c19_case) : bool :=
   | [] => false
   end.
 
+Definition step_case (st : viz_step) : c19_case :=
+  Build_c19_case 0 (vs_n st) (vs_rel st) (vs_c st) (vs_dpth st) (vs_levels st) (vs_ldict st)
+                 (vs_fcart st) (vs_multi st) true [] [] [] [] [].
+
 Definition c19_check (cs : c19_case) : nat :=
   match k_kind cs with
   | O => code_of (layout_same cs) (layout_spec_ok cs)
+  | 2 => code_of (forallb (fun st => layout_same (step_case st)) (k_steps cs))
+                 (forallb (fun st => layout_spec_ok (step_case st)) (k_steps cs))
   | _ => code_of (mover_same cs) (mover_spec_ok cs)
   end.
 
@@ -175,6 +196,9 @@ Definition c19_show (cs : c19_case) :=
   match k_kind cs with
   | O => (m_levels_res cs, m_fcart_res cs,
           map (fun i => spec_level cs i) (seq 0 (k_n cs)), @nil (nat * list pt))
+  | 2 => (LErr 0, LErr 0, map (fun st => if layout_same (step_case st) then 1 else 0) (k_steps cs) ++
+                            map (fun st => if layout_spec_ok (step_case st) then 1 else 0) (k_steps cs),
+          @nil (nat * list pt))
   | _ => (LErr 0, LErr 0, [],
           let s0 := load (k_dir cs) (k_pos0 cs) in (O, pos s0) :: trace s0 (k_ops cs))
   end.
